@@ -97,7 +97,7 @@ theorem step_lReuse {s : St} {t : Tid} {j : Job} {p : Pos} (h : SInv s) (hpc : s
   · exact bit_upd h.bit _ _ _ (by simp)
   · intro a ha; dsimp only at ha; have := hown a; projs; grind [upd]
   · intro a t0 h0 ha; dsimp only at ha; grind [upd]
-  · constructor <;> intros <;> projs <;> (try dsimp only) <;> (try grind [upd])
+  · constructor <;> intros <;> projs <;> (try dsimp only) <;> (try tfin)
   · intro t0 h0
     have hq := h.thr t0
     have b7 := hq.mcur
@@ -151,7 +151,7 @@ theorem TInv.frame_remove {s : St} {t t' : Tid} (h : SInv s) (_hne : t' ≠ t) (
   have b9 := hq.pcnt
   have b14 := hq.phome
   have hhe := h.elem.ehome a e (by rw [hd])
-  apply hq.frame <;> first | rfl | exact Nat.le_refl _ | (intros; rfl) | (intros; exact ⟨rfl, rfl⟩) | skip
+  apply hq.frame <;> first | rfl | exact Nat.le_refl _ | (intros; rfl) | (intros; exact ⟨rfl, rfl⟩) | (intros; assumption) | skip
   · intro p hp; have := b7 p hp; dsimp only; refine ⟨?_, rfl⟩; grind [upd]
   · intro p hp; have := b8 p hp; dsimp only; refine ⟨?_, rfl⟩; grind [upd]
   · intro n hn; have := b9 n hn; dsimp only; refine ⟨?_, rfl⟩; grind [upd]
@@ -177,7 +177,7 @@ theorem step_eraseCas_ok {s : St} {t : Tid} {k : Int} {cur e : Nat} (h : SInv s)
   · exact bit_upd_data h.bit _ _ (by rw [hd])
   · intro a ha; have := hown a ha; projs
   · intro a t0 h0 ha; exact ha
-  · constructor <;> intros <;> (try dsimp only [St.removed] at *) <;> projs <;> (try grind [upd])
+  · constructor <;> intros <;> (try dsimp only [St.removed] at *) <;> projs <;> (try tfin)
   · intro t0 h0; exact TInv.frame_remove h h0 _ _ _ _ _ _ hlk hd (fun _ _ hx => hx) (fun _ _ => rfl)
   · keep hpc
   · keep hpc
@@ -205,7 +205,7 @@ theorem step_updCas_ok {s : St} {t : Tid} {j : Job} {cur e : Nat} (h : SInv s) (
   · exact bit_upd_data h.bit _ _ (by rw [hd])
   · intro a ha; have := hown a ha; projs
   · intro a t0 h0 ha; exact ha
-  · constructor <;> intros <;> (try dsimp only [St.removed] at *) <;> projs <;> (try grind [upd])
+  · constructor <;> intros <;> (try dsimp only [St.removed] at *) <;> projs <;> (try tfin)
   · intro t0 h0
     have hu := h.upend t0 t
     rw [hpc] at hu
@@ -431,7 +431,7 @@ theorem TInv.frame_priv {s : St} {t t' : Tid} (h : SInv s) (hne : t' ≠ t) (n :
   have hq := h.thr t'
   have hnl := ((h.thr t).pcnt n hn).2.2.1
   have lkne : ∀ b, s.lk b = true → b ≠ n := fun b hb e => by rw [e, hnl] at hb; cases hb
-  apply hq.frame <;> first | rfl | exact Nat.le_refl _ | (intros; rfl) | (intros; exact ⟨rfl, rfl⟩) | skip
+  apply hq.frame <;> first | rfl | exact Nat.le_refl _ | (intros; rfl) | (intros; exact ⟨rfl, rfl⟩) | (intros; assumption) | skip
   · intro q hp; exact hnx _ (lkne _ (hq.pos q (adjOf_posOf hp)).1)
   · intro m hm; exact hnx _ (fun e => hne (h.upriv t' t n (e ▸ hm) hn))
   · intro q hp; exact ⟨hdt _ (lkne _ (hq.pos q (lpos_posOf hp)).2.1), rfl⟩
@@ -466,7 +466,7 @@ theorem step_lCtor2 {s : St} {t : Tid} {j : Job} {p : Pos} {n : Nat} (h : SInv s
   · exact bit_upd_data h.bit _ _ (by rw [hm])
   · intro a ha; have := hown a ha; projs; exact this
   · intro a t0 h0 ha; exact ha
-  · constructor <;> intros <;> projs <;> (try dsimp only) <;> (try grind [upd])
+  · constructor <;> intros <;> projs <;> (try dsimp only) <;> (try tfin)
   · intro t0 h0
     have hu := h.upend t0 t
     refine TInv.frame_priv h h0 n hpn _ _ _ _ (fun _ _ => rfl) (fun b hb => upd_other _ _ _ _ hb) ?_ ?_
@@ -497,7 +497,7 @@ theorem step_lStNext {s : St} {t : Tid} {j : Job} {p : Pos} {n : Nat} (h : SInv 
   · exact h.bit
   · intro a ha; have := hown a ha; projs; exact this
   · intro a t0 h0 ha; exact ha
-  · constructor <;> intros <;> projs <;> (try dsimp only) <;> (try grind [upd])
+  · constructor <;> intros <;> projs <;> (try dsimp only) <;> (try tfin)
   · intro t0 h0
     exact TInv.frame_priv h h0 n hpn _ _ _ _ (fun b hb => upd_other _ _ _ _ hb) (fun _ _ => rfl)
       (fun _ _ hx => hx) (fun _ _ => rfl)
@@ -523,7 +523,7 @@ theorem step_lCtor1 {s : St} {t : Tid} {j : Job} {p : Pos} (h : SInv s) (hpc : s
   · exact h.bit
   · intro a ha; have := hown a ha; projs; exact this
   · intro a t0 h0 ha; exact ha
-  · constructor <;> intros <;> projs <;> (try dsimp only) <;> (try grind [upd])
+  · constructor <;> intros <;> projs <;> (try dsimp only) <;> (try tfin)
   · intro t0 h0
     have hq := h.thr t0
     have b4 := hq.pos
@@ -559,7 +559,7 @@ theorem TInv.frame_link {s : St} {t t' : Tid} (h : SInv s) (hne : t' ≠ t) (n p
     TInv { s with next := upd s.next pr n, lk := upd s.lk n true, lt := ltIns s.lt pr cu n, pc := pcf }
       t' (s.pc t') := by
   have hq := h.thr t'
-  obtain ⟨a1,a2,a3,a4,a5,a6,a7,a8,a8',a9,a10,a11,a12,a13,a14,a15,a16,a17,a18,a19,a20,a21,a22⟩ := hq
+  obtain ⟨a1,a2,a3,a4,a5,a6,a7,a8,a8',a9,a10,a11,a12,a13,a14,a15,a16,a17,a18,a19,a20,a21,a22,a23,a24,a25,a26,a27⟩ := hq
   have hnl := ((h.thr t).pcnt n hn).2.2.1
   have lkne : ∀ b, s.lk b = true → b ≠ n := fun b hb e => by rw [e, hnl] at hb; cases hb
   have lkmono : ∀ b, s.lk b = true → upd s.lk n true b = true := fun b hb => by
@@ -616,6 +616,11 @@ theorem TInv.frame_link {s : St} {t t' : Tid} (h : SInv s) (hne : t' ≠ t) (n p
   · exact a20
   · exact a21
   · exact a22
+  · exact a23
+  · exact a24
+  · exact a25
+  · exact a26
+  · exact a27
 
 theorem step_lCasNext {s : St} {t : Tid} {j : Job} {p : Pos} {n : Nat} (h : SInv s) (hpc : s.pc t = .lCasNext j p n) :
     SInv { s with next := upd s.next p.prev n, lk := upd s.lk n true, lt := ltIns s.lt p.prev p.cur n,
@@ -648,7 +653,7 @@ theorem step_lCasNext {s : St} {t : Tid} {j : Job} {p : Pos} {n : Nat} (h : SInv
     have e3 : ltIns s.lt p.prev p.cur n p.prev p.cur = true := by
       rw [ltIns_old (lkne _ hpos.1) (lkne _ hpos.2.1)]; exact hpos.2.2
     have e4 : upd s.lk n true (s.itn t) = true := by rw [upd_other _ _ _ _ (lkne _ a16)]; exact a16
-    constructor <;> intros <;> projs <;> (try dsimp only) <;> (try grind)
+    constructor <;> intros <;> projs <;> (try dsimp only) <;> (try tfin)
   · intro t0 h0; exact TInv.frame_link h h0 n _ _ hpn hmo _
   · keep hpc
   · keep hpc
